@@ -70,6 +70,9 @@ def run(F, rep, tier):
     c03.run(F, rep, tier)
     # boxed contexts, invocations, function definitions and relations push / pop the scope they are given: each must leave it as found (R13.1 on the builders)
     c13.scope_neutral_premise(F, rep, "dmntk_model_evaluator", 8)
+    # premise (C01): the scope primitives the wiring relies on - lookups answer from the innermost context, the single-context accessors (peek, set_entry) work on the top
+    from props import c01
+    c01.lookup_order_rule(F, rep)
     rep.explanation = expl + " The decision-table rules of C03 (R03.x) and the scope-neutrality rule of C13 (R13.1, model-evaluator bodies) are re-evaluated as premises."
 
 
